@@ -99,6 +99,18 @@ def _case(draw, nmax=25):
             lr["r"][0] = draw(st.sampled_from(SPECIAL_FIRST[fmt]))
         lr["tmin"], lr["tmax"] = (0, 0) if fmt in ("kida", "umist", "leeds") else (0.0, 0.0)
         lrs.append(lr)
+    if lrs and draw(st.integers(0, 2)) == 0:
+        # the same reaction entered twice with other coefficients (two fits / channels of one reaction, merged databases)
+        src = lrs[draw(st.integers(0, len(lrs) - 1))]
+        dup = dict(src, r=list(src["r"]), p=list(src["p"]), markers_r=list(src["markers_r"]))
+        dup["a"], dup["b"], dup["c"] = draw(COEF), draw(COEF), draw(COEF)
+        if fmt == "leeds":
+            dup["a"] = abs(dup["a"]) if 1e-99 < abs(dup["a"]) < 1e99 or dup["a"] == 0 else 2.0e-10
+            dup["b"] = max(-9999.0, min(9999.0, dup["b"])) if abs(dup["b"]) >= 0.01 or dup["b"] == 0 else 0.01
+            dup["c"] = max(-99999.0, min(99999.0, dup["c"])) if abs(dup["c"]) >= 0.1 or dup["c"] == 0 else 0.1
+        if fmt != "uclchem":
+            dup["idx"] = src["idx"] + 1 if src["idx"] < 99998 else 1
+        lrs.append(dup)
     if refused:
         lrs = lrs[:2]
         lrs[0]["code"] = 6
